@@ -146,6 +146,11 @@ class Inliner:
         name = (dotted(f) or "").split(".")[-1]
         if name in self.no_inline or name in self.stack:
             return None
+        # only private helpers (and closures of the function): public functions and methods are interfaces that
+        # rules refer to by name
+        private = name.startswith("_") and not name.startswith("__")
+        if not private and not (isinstance(f, ast.Name) and f.id in self.local_defs):
+            return None
         if isinstance(f, ast.Name):
             fn = self.local_defs.get(f.id)
             if fn is None and self.mod.has(f.id) and isinstance(self.mod.top(f.id), ast.FunctionDef):
